@@ -263,8 +263,20 @@ pub fn check(cx: &Cx, rep: &mut Report) {
         }
         if pending {
             rep.count("C08.histories_with_pending_ops_skipped", 1);
+            // L1: the scenario ran to quiescence, so a registry operation that is still pending is deadlocked
+            // (the registry lock is held for good).  Lookups that spawn are exempt: in debug builds the library pings
+            // the new service under the lock, and a service whose started() uses the registry then waits for itself.
+            if !cx.mt {
+                for o in ix.ops.iter().filter(|o| o.e.is_none() && o.b < settled && o.arg == k as u64 && matches!(o.op, OpK::Register | OpK::Replace | OpK::Unregister | OpK::AlreadyRunning | OpK::TryFromRegistry)) {
+                    let ctask = ix.ev[o.b as usize].task;
+                    if !matches!(ix.task_end.get(&ctask), Some((_, _, "panicked"))) {
+                        rep.fail(P, "R2", format!("registry_op_deadlocked={:?}", o.op), format!("{:?} c{}#{} of service type {k} is still pending when the scenario is quiescent", o.op, o.c, o.i), vec![o.b]);
+                    }
+                }
+            }
             continue;
         }
+        rep.premise("C08.R2.no_registry_op_pending_at_quiescence");
         if ops.len() > 30 {
             rep.count("C08.histories_too_large", 1);
             continue;
